@@ -51,7 +51,7 @@ OpSeq == << "ParseQuery", "ParseStatement", "ParseExpr", "QuoteString", "QuoteId
             "String", "Clone", "CloneExpr", "Walk", "WalkFunc", "Eval", "EvalBool", "EvalType", "Reduce",
             "StmtReduce", "RewriteFields", "ColumnNames", "RequiredPrivileges", "ConditionExpr", "HasWildcard",
             "FieldExprByName", "FieldNames", "Measurements", "ExprNames", "TimeAscending",
-            "ParserReask", "RewriteFieldsUse",
+            "ParserReask", "RewriteFieldsUse", "ParseWithParams", "ReduceDerived",
             "GroupByInterval", "GroupByOffset" >>
 NOps == Len(OpSeq)
 AllOps == {OpSeq[i] : i \in 1..NOps}
@@ -59,14 +59,14 @@ HypOps == {"HypBufferedSanitize"}
 
 Kind(op) ==
   IF op \in {"ParseQuery", "ParseStatement", "ParseExpr", "QuoteString", "QuoteIdent", "IdentNeedsQuotes",
-             "FormatDuration", "ParseDuration", "Sanitize", "Scan", "ScanString", "ParserReask"} THEN "indep"
+             "FormatDuration", "ParseDuration", "Sanitize", "Scan", "ScanString", "ParserReask", "ParseWithParams"} THEN "indep"
   ELSE IF op \in {"GroupByInterval", "GroupByOffset"} THEN "control"
   ELSE IF op \in HypOps THEN "hyp"
   ELSE "ast"
 
 \* the verb of the property text under which the operation falls
 Verb(op) ==
-  CASE op \in {"ParseQuery", "ParseStatement", "ParseExpr", "ParseDuration", "Scan", "ScanString", "ParserReask"} -> "parse"
+  CASE op \in {"ParseQuery", "ParseStatement", "ParseExpr", "ParseDuration", "Scan", "ScanString", "ParserReask", "ParseWithParams"} -> "parse"
     [] op \in {"QuoteString", "QuoteIdent", "IdentNeedsQuotes"} -> "quote"
     [] op = "FormatDuration" -> "format"
     [] op = "Sanitize" -> "sanitize"
@@ -74,7 +74,7 @@ Verb(op) ==
     [] op \in {"Clone", "CloneExpr"} -> "clone"
     [] op \in {"Walk", "WalkFunc"} -> "walk"
     [] op \in {"Eval", "EvalBool", "EvalType"} -> "evaluate"
-    [] op \in {"Reduce", "StmtReduce", "ConditionExpr"} -> "reduce"
+    [] op \in {"Reduce", "StmtReduce", "ConditionExpr", "ReduceDerived"} -> "reduce"
     [] op \in {"RewriteFields", "HasWildcard", "RewriteFieldsUse"} -> "expand wildcards on"
     [] op \in {"ColumnNames", "FieldExprByName", "FieldNames", "Measurements", "ExprNames", "TimeAscending"} -> "query names"
     [] op = "RequiredPrivileges" -> "query privileges"
@@ -114,6 +114,9 @@ Footprint(op) ==
     [] op = "RewriteFieldsUse"  -> WholeAst \o <<Rn(Memo), Lc, Lc, Lc, Lc>>
     \* a parser asked again at the end of its input, while a second parser exists
     [] op = "ParserReask"       -> <<Lc, R("Language"), R("keywords"), Lc, Lc, R("Language"), Lc>>
+    \* every goroutine binds the SAME parameter map (SetParams copies what it needs) / derives its valuer from the SAME base
+    [] op = "ParseWithParams"   -> <<Lc, R("Language"), R("keywords"), Lc>>
+    [] op = "ReduceDerived"     -> WholeAst \o <<Rn(Memo), R("datePatterns"), Lc, Lc>>
     [] op = "ColumnNames"       -> <<R("ast.Fields"), R("ast.rest"), Lc>>
     [] op = "RequiredPrivileges" -> <<R("ast.Sources"), R("ast.rest"), Lc>>
     [] op = "HasWildcard"       -> <<R("ast.Fields"), R("ast.Dimensions")>>
